@@ -595,7 +595,7 @@ package engine
 //@   let d0 := rdData(current_state.reader)
 //@   modifies inferred
 //@   ensures step: cellOk(result) && frozen(result, c0) && rdData(result.reader) == d0
-//@   loop 1 invariant cellOk(next_state) && frozen(next_state, c0) && rdData(next_state.reader) == d0 && final_value != nil && pstate.environment != nil
+//@   loop 1 invariant cellOk(next_state) && frozen(next_state, c0) && rdData(next_state.reader) == d0 && final_value != nil && pstate.environment != nil && pstate.currentValue != nil
 
 //@ func matchInstruction [C03 C09 C10]
 //@   requires cellOk(current_state) && i != nil
